@@ -79,6 +79,15 @@ def grid_cases(rng, tier):
               'opt-se2geo', 'opt-3duct-convapprox', 'opt-five-regions',
               'opt-only-upper-region', 'opt-bare-kc', 'opt-eng-se2-mit'):
         out.append((k, _sl[k]))
+    # un-rodded regions in laminar flow (low flow rate)
+    tl = add_regions(bundle_type(2), L,
+                     lower=dict(model='simple', vf_coolant=0.3,
+                                hydraulic_diameter=0.004),
+                     upper=dict(model='6node', vf_coolant=0.4,
+                                hydraulic_diameter=0.005))
+    out.append(('regions-laminar', make_core(
+        rng, {'a1': tl}, [(1, 1, 'a1')], [0.012], gap_model='none',
+        setup={'include_gravity_head_loss': True})))
     # the axial regions listed top-down in the input (their order in the
     # file says nothing about their elevation)
     c5 = copy.deepcopy(_sl['opt-five-regions'])
